@@ -131,7 +131,7 @@ theorem step_SOK (sp : Spec) (w : World) (ev : Event) (h : SOK sp w.tasks) : SOK
           · split
             · exact h
             · split
-              · exact h
+              · rw [(checkAffected_tasks sp _ _).1]; exact h
               · split
                 · exact h
                 · exact SOK_setTask sp _ _ h (Or.inr (Or.inr (Or.inl rfl)))
